@@ -1,7 +1,5 @@
 import Aplang.Model.Run
-import Aplang.Gen.Keywords
-import Aplang.Gen.Enders
-import Aplang.Gen.Registry
+import Aplang.Model.Config
 import Aplang.Gen.CharTables
 /-!
 # Line-protocol driver: runs the model's executable definitions.
@@ -24,8 +22,9 @@ def hexString (s : String) : String := hexOfBytes s.toUTF8
 def unhexDigit (c : Char) : Nat :=
   if '0' ≤ c ∧ c ≤ '9' then c.toNat - 48 else if 'a' ≤ c ∧ c ≤ 'f' then c.toNat - 87 else 0
 
+/-- payloads are `h` followed by hex digits (so that an empty payload is still a field) -/
 def unhex (s : String) : Str := Id.run do
-  let cs := s.toList.toArray
+  let cs := (s.toList.dropWhile (· == 'h')).toArray
   let mut bytes := ByteArray.empty
   let mut i := 0
   while i + 1 < cs.size do
@@ -85,12 +84,9 @@ def charEnv : CharEnv where
   upper c := match lookupMap upperMap c.toNat with | some r => r.map Char.ofNat | none => [c]
   lower c := match lookupMap lowerMap c.toNat with | some r => r.map Char.ofNat | none => [c]
 
-def lexCfg : LexCfg where
-  kw s := (Gen.keywords.find? (fun e => e.1.toList == s)).map (·.2)
-  ender t := Gen.enders.contains t
-  isAlnum := charEnv.isAlnum
+def lexCfg : LexCfg := genLexCfg charEnv.isAlnum
 
-def cfg : Cfg := { lex := lexCfg, chars := charEnv, modules := stdModule }
+def cfg : Cfg := genCfg charEnv
 
 /-! ## printers -/
 
